@@ -7,6 +7,7 @@ CONSTANT Ws = {0, 1, 2}
 CONSTANT Times = {0, 1, 2, 3, 4, 5}
 CONSTANT Receivers = {0}
 CONSTANT AllowClose = TRUE
+CONSTANT MaxMult = 1
 CONSTANT MaxLen = 3
 INVARIANT HeapCacheAgree
 INVARIANT Conservation
